@@ -126,7 +126,7 @@ def run_shard(args):
     if args.get("mode") == "store":
         from vf import storedrv
         return storedrv.run_c01(args, res)
-    return histrun.run_history(args, [C01Monitor], res, weights={"locked_writes": 1.0, "control_dir": 2.0, "delete_col": 1.6, "mkcol_new": 2.0})
+    return histrun.run_history(args, [C01Monitor], res, weights={"locked_writes": 1.0, "control_dir": 2.0, "delete_col": 1.6, "mkcol_new": 2.0, "put_missing_col": 1.2})
 
 
 def plan(tier, seed):
